@@ -308,10 +308,11 @@ def check_conc(pid, name, cases, res):
             res.violations.append(dict(signature='C14/never-expires', what='keys are still remembered 15 s after the last call (window %.0f ms): an expired key is never accepted again' % (case['w_ns'] / 1e6),
                                        case=describe_conc(case)))
         labels, events, answers, problems, contended, stats = map_conc(case)
-        for pr in problems:
-            res.mismatches.append(dict(kind='C14 stamp mapping: ' + pr, case=describe_conc(case, stats)))
-        if problems:
-            continue
+        # a mapping problem (e.g. clock readings out of order) makes the schedule replay meaningless, but
+        # never masks a verdict: the acceptors still judge the stamped events of such a case
+        prob_recs = [dict(kind='C14 stamp mapping: ' + pr, case=describe_conc(case, stats)) for pr in problems]
+        res.mismatches += prob_recs
+        case['_problems'] = (problems, prob_recs)
         thr = [op_terms(t) for t in case['threads']]
         term = '(CC %s %s %s %s %s %s %s %s %d)' % (
             Z(case['w_ns']), Z(case['t0_ns']), C.coq_bool(FIXED), C.coq_list([a for a, _ in thr]), C.coq_list(labels),
@@ -329,16 +330,28 @@ def check_conc(pid, name, cases, res):
                 res.nontrivial.add(('conc', case['mode'], case['hasher'], len(case['threads']), dups, reacc, removed, contended > 0))
             res.extra.setdefault('concurrent', dict(cases=0, replayed=0, contended_cases=0, cases_with_racers_queued_behind_a_fresh_insert_of_their_key=0, duplicate_answers=0, keys_deleted=0, reaccepted_keys=0, sweeps=0))
             cc = res.extra['concurrent']
-            cc['cases'] += 1; cc['replayed'] += 0 if i in mis and 1 in mis[i] else 1
+            cc['cases'] += 1; cc['replayed'] += 0 if (i in mis and 1 in mis[i]) or case.get('_problems', ([], []))[0] else 1
             cc['contended_cases'] += 1 if contended else 0; cc['cases_with_racers_queued_behind_a_fresh_insert_of_their_key'] += 1 if case.get('_samekey') else 0; cc['duplicate_answers'] += dups
             cc['keys_deleted'] += removed; cc['reaccepted_keys'] += reacc; cc['sweeps'] += stats['sweeps']
             codes = vio.get(i, [])
+            problems, prob_recs = case.get('_problems', ([], []))
+            if problems:
+                st = dict(st, stamp_mapping_problems=problems[:5])
+                for pr in prob_recs:
+                    pr['explained_by_violation'] = bool(codes)
+            if 22 in codes:
+                res.violations.append(dict(signature='C14/expired-key-never-reaccepted', what='the stamped history contains a "duplicate" answered more than 7 windows after the expiry of the entry it hit (C14_timely_trace_fresh bounds this by p + 3d; documented: half a window)',
+                                           case=describe_conc(case, st)))
             if 20 in codes:
                 res.violations.append(dict(signature='C14/timed-set-rejected', what='the stamped history of IsDuplicate answers and deletions is rejected by the timed-set specification (two "new" answers for one key inside a window, a duplicate without cause, a deletion before expiry, or an expired key left behind by a sweep)',
                                            case=describe_conc(case, st)))
             if 21 in codes:
                 res.violations.append(dict(signature='C14/recorded-but-not-delivered', what='a message whose key was recorded as new did not reach the handler / the inner publisher (or a duplicate did): later messages with that key are dropped although none got through',
                                            case=describe_conc(case, st)))
+            if i in mis and problems:
+                mis[i] = [k for k in mis[i] if k == 5]      # replay codes of an unmappable log say nothing
+                if not mis[i]:
+                    del mis[i]
             if i in mis:
                 if 5 in mis[i] and not codes:
                     res.violations.append(dict(signature='C14/outcome-differs', what='a middleware / decorator call did not do what the property says with the repository\'s answer (duplicates dropped as successes without invoking, everything else passed through unchanged)',
